@@ -77,7 +77,7 @@ class C10:
         return st.one_of(_strategy("j1939-21"), _strategy("j1939-22"))
 
     def examples(self, tier):
-        return 1500 if tier == "quick" else 30000
+        return 1500 if tier == "quick" else 250000
 
     def enumerate(self, tier):
         return []
